@@ -13,6 +13,15 @@
 (* which propagates.  A state or result that contains NaR is flagged `ovf` *)
 (* and the harness drops (and counts) that instance: TLC never overflows   *)
 (* and no theorem is ever "proved" on a wrapped number.                    *)
+(* What 32 bits reach: weights are products of n+2 unrelated ratios of     *)
+(* determinants, so they are the first thing to overflow.  n <= 3: any     *)
+(* small integer data.  n = 4 with <= 3 electrons: fine.  n = 4 with four  *)
+(* electrons: only with determinant-1 half-step matrices with eigenvalues  *)
+(* near 1, trial entries in -1..1, HS pair (3/2, 1/2) and initial weight 1 *)
+(* (the generator scouts candidates with Python Fractions; TLC has the     *)
+(* last word through `ovf`).  Even n = 2 with entries +-2 can overflow     *)
+(* (weight 1554359985/21106928), hence NoOverflow is claimed only for the  *)
+(* small design set.                                                       *)
 (*                                                                         *)
 (* The module has four layers:                                             *)
 (*  1. rationals and small dense linear algebra;                           *)
@@ -45,6 +54,16 @@
 (* driven down exactly that field path; Sum -> the right-hand side that    *)
 (* the code's own leaves must add up to.                                   *)
 (*                                                                         *)
+(* TLC evaluation notes (they matter by orders of magnitude here):         *)
+(*  - [x \in S |-> e] is lazy and re-evaluates e at every application:     *)
+(*    every matrix is built with TLCEval on BOTH levels (rows too);        *)
+(*  - a LET at the conjunct level of an action is re-evaluated at every    *)
+(*    use: actions bind their result with  \E s \in {expr} : ...  instead;  *)
+(*  - a cfg substitution  Insts <- Def  is re-evaluated at every use: the  *)
+(*    instance list is the constant-level definition Insts below;          *)
+(*  - do not run this module with -coverage (it switches TLC's caching of  *)
+(*    lazy values off; a 20 s run becomes hours).                          *)
+(*                                                                         *)
 (* Conventions (as in the code): sites 1..n; spin-orbital P in 1..2n is    *)
 (* (up, P) for P <= n and (down, P-n) otherwise; the walker is the pair    *)
 (* (wu, wd) of n x nu and n x nd matrices, Wg its 2n x N block-diagonal    *)
@@ -55,6 +74,7 @@
 EXTENDS Cplx, Json, IOUtils
 
 CONSTANTS Design,    \* TRUE: the built-in exhaustive design instances; FALSE: instances from IOEnv.CPMC_INST
+          DesignBig, \* design walker entries in -2..2 (7600 instances) instead of -1..1 (800 instances)
           Emit       \* TRUE: write every reached state to IOEnv.CPMC_OUT
 
 (***************************************************************************)
@@ -115,7 +135,6 @@ RPow(a, k) == IF k = 0 THEN ONE ELSE RMul(a, RPow(a, k - 1))
 Tiny(a) == RPos(a) /\ a[2] \div a[1] >= 1000000
 
 Idx(k) == TLCEval([i \in 1..k |-> i])
-Rows(A) == DOMAIN A
 MatHasNaR(A) == \E i \in DOMAIN A : \E j \in DOMAIN A[i] : IsNaR(A[i][j])
 RMatMul(A, B) ==
   TLCEval([i \in DOMAIN A |-> TLCEval([j \in DOMAIN B[1] |->
@@ -377,14 +396,15 @@ AdjOK(I) == I.lat.kind = "none" \/ I.adj = LatAdj(I.lat)
 (*   id, n, nu, nd, c (2n x N), wu, wd, w0, mu, md, hs = <<p, q>>,         *)
 (*   cset = <<<<cP, cQ>>, ...>>, pairs (BOOLEAN), lat = [kind, lx, ly], adj*)
 (* all numbers rationals <<num, den>> except adj (0/1).                    *)
-(* Design mode: every walker with entries in {-1,0,1} (n = 2, one electron *)
-(* per spin) against UHF and GHF trials, two half-step matrices and two    *)
-(* HS pairs - small enough to be exhaustive, and overflow-free.            *)
+(* Design mode: every walker with entries in DVals (n = 2, one electron    *)
+(* per spin, non-zero overlap) against two UHF and two GHF trials, two     *)
+(* half-step matrices (one symmetric, one not) and two HS pairs: small     *)
+(* enough to be exhaustive; overflow-free for DVals = -1..1.               *)
 (***************************************************************************)
 FileInsts == ndJsonDeserialize(IOEnv.CPMC_INST)
 
 RM(A) == TLCEval([i \in DOMAIN A |-> TLCEval([j \in DOMAIN A[i] |-> RI(A[i][j])])])
-DVals   == {-1, 0, 1}
+DVals   == IF DesignBig THEN {-2, -1, 0, 1, 2} ELSE {-1, 0, 1}
 DTrials == { <<<<1, 0>>, <<1, 0>>, <<0, 1>>, <<0, 1>>>>,           \* UHF, uniform density
              <<<<2, 0>>, <<1, 0>>, <<0, 1>>, <<0, -1>>>>,          \* UHF, non-uniform density
              <<<<1, 1>>, <<0, 1>>, <<1, 0>>, <<1, -1>>>>,          \* GHF
